@@ -153,7 +153,7 @@ func runC13(c *LCase, failFirst bool) (viol string, nontrivial bool, feats []str
 	feats = append(feats, r.feats...)
 	if r.viol != "" {
 		// the close protocol itself failed; resources cannot be judged
-		if strings.Contains(r.viol, "still open") || strings.Contains(r.viol, "did not return") {
+		if strings.Contains(r.viol, "still open") || strings.Contains(r.viol, "did not return") || strings.Contains(r.viol, "close-on-exec") {
 			return r.viol, true, feats
 		}
 	}
